@@ -154,7 +154,7 @@ no block has been removed, the lock is released. -/
 def deletedBandsOnly (s : Store) (pre : List Nat) : Store := s.filter fun kv => !underAny pre kv.1
 
 theorem deleteBands_missing_runs {s : Store} {pre post : List Nat} {b : Nat}
-    (ok : ArchOK s (pre ++ b :: post)) (hfree : s.get? .gcLock = none)
+    (ok : DelArchOK s (pre ++ b :: post)) (hfree : s.get? .gcLock = none)
     (hnew : newestComplete s) (o : DeleteOpts) (hdry : o.dryRun = false) (hnd : pre.Nodup)
     (hex : ∀ b' ∈ pre, (s.get? (.bandDir b')).isSome = true)
     (hb : s.get? (.bandDir b) = none ∨ b ∈ pre) :
